@@ -1004,7 +1004,9 @@ func (m Mesh) VertexNeighborTable() VertexLUT {
 		for i := 1; i < len(m.indices); i++ {
 			table.Link(m.indices[i-1], m.indices[i])
 		}
-		table.Link(m.indices[0], m.indices[len(m.indices)-1])
+		if len(m.indices) > 0 {
+			table.Link(m.indices[0], m.indices[len(m.indices)-1])
+		}
 
 	default:
 		panic(fmt.Errorf("unimplemented topology for vertex LUT: %s", m.topology.String()))
